@@ -1,11 +1,10 @@
 /-
   C08 — error collection never changes the meaning of valid input.
-  INTERIM file.  Proved here about the model: when the wrapped parser succeeds,
+  Proved here about the model: when the wrapped parser succeeds,
   `recover_default` returns its result untouched and reports nothing, with or
   without a sink; when it fails and no sink is installed, the failure is
-  returned unchanged.  The lock-step theorem over committed grammars is in
-  progress; the `twice` family (each case run under `Context::empty()` and under
-  a sink) + oracle carries the statement meanwhile.
+  returned unchanged.  The lock-step theorem over committed grammars
+  (`TephraProofs/LockStep.lean`) gives the three clauses (a), (b), (c) below.
 
   First clause, proved for the whole combinator family:
   * `C08_nosink_log_empty`: under a context without a sink (`Context::empty()`,
@@ -18,7 +17,9 @@
   Unbounded: any grammar, scanner, lexer, fuel, world.
 -/
 import TephraModel.Run
+import TephraModel.Spec.Committed
 import TephraProofs.WorldFrame
+import TephraProofs.LockStep
 
 namespace Tephra.Props
 open Tephra
@@ -48,5 +49,182 @@ example (R : RunEnv) (lx : Lx) (W : World) :
     (run R 1 (.probe 0) lx ⟨true, [], false⟩ W).2.log = W.log ++ [⟨[], .probe 0⟩] ∧
     (run R 1 (.probe 0) lx ⟨false, [], false⟩ W).2.log = W.log := by
   constructor <;> simp [run, sendError, Ctx.apply, mkErr]
+
+
+/-! ## The lock-step theorems
+
+`ctx0 := { ctx with sink := false }` is the context without a sink (`Context::empty()` with the
+same transform chain), `ctx1 := { ctx with sink := true }` the same context with a sink. -/
+
+open LockStep
+
+/-- **C08, target 1.**  A recovery-free grammar (no `recover*`, `stabilize`, `bracket*`, `list*`,
+`probe` anywhere) never consults the sink: the two runs are equal — result, lexer and world —
+for every fuel, lexer and world. -/
+theorem C08_recoveryFree_sink_independent (R : RunEnv) (n : Nat) (g : G) (lx : Lx) (ctx : Ctx) (W : World)
+    (hg : Spec.recoveryFree g = true) :
+    run R n g lx { ctx with sink := false } W = run R n g lx { ctx with sink := true } W :=
+  ((siAt R n).run g lx { ctx with sink := false } W hg).symm
+
+/-- **C08, target 2.**  Without a sink no lexer ever carries a recover state: a run (any grammar)
+started on a lexer with `recover = none` returns, when it succeeds, a lexer with `recover = none`,
+on which `advance_to_recover` is the identity.  (The invariant `LockStep.NRAt` states the same
+for every member of the mutual block, i.e. for every lexer handed to a sub-parser.) -/
+theorem C08_no_recover_state_without_sink (R : RunEnv) (n : Nat) (g : G) (lx : Lx) (ctx : Ctx) (W : World)
+    (hr : lx.recover = none) (v : Val) (lx' : Lx)
+    (h : (run R n g lx { ctx with sink := false } W).1 = .ok v lx') :
+    lx'.recover = none ∧ ∀ W', advanceToRecover R lx' W' = (some lx', W') := by
+  have h1 := run_nr R n g lx { ctx with sink := false } W rfl hr v lx' h
+  exact ⟨h1, fun W' => advanceToRecover_none R lx' W' h1⟩
+
+/-- `committed'` — `Spec.committed` minus *live probes*: the definitions agree on every
+constructor except `probe`, where `committed' (.probe _) = false` (`Spec.committed` says `true`).
+A probe below `maybe` / `unrecoverable` is still allowed (both predicates are `true` there). -/
+abbrev committed' (g : G) : Bool := LockStep.committed' g
+
+theorem committed'_imp_committed (g : G) (h : committed' g = true) : Spec.committed g = true :=
+  comm_false_imp g h
+
+/-- The general dichotomy behind (a), (b), (c): the two runs agree entirely, or the sink-enabled
+run has appended a first entry `e'` to the log, the sink-less run failed with an error `e`, the
+bodies agree, and `e' = ctx.apply e` when the grammar pushes no transforms (`ctxFree`). -/
+theorem C08_lockstep (R : RunEnv) (n : Nat) (g : G) (lx : Lx) (ctx : Ctx) (W : World)
+    (hg : committed' g = true) (hr : lx.recover = none) :
+    run R n g lx { ctx with sink := true } W = run R n g lx { ctx with sink := false } W ∨
+    ∃ e e' rest, (run R n g lx { ctx with sink := false } W).1 = .err e ∧
+      (run R n g lx { ctx with sink := true } W).2.log = W.log ++ e' :: rest ∧ e'.body = e.body ∧
+      (ctxFree g = true → e' = ctx.apply e) := by
+  rcases run_lockstep false R n g lx { ctx with sink := false } W rfl hg hr with h | h
+  · exact Or.inl h
+  · obtain ⟨e', rest, hlog, hrest⟩ := h
+    obtain ⟨e, he, hb, hp⟩ := hrest rfl
+    exact Or.inr ⟨e, e', rest, he, hlog, hb, hp⟩
+
+/-- **C08 (a).**  `committed' g`, lexer without recover state: if the parse WITHOUT a sink
+succeeds, the parse WITH a sink yields the identical value, the identical lexer (hence end
+position), the identical world — and nothing was reported (`W0.log = W.log`). -/
+theorem C08_a (R : RunEnv) (n : Nat) (g : G) (lx : Lx) (ctx : Ctx) (W : World)
+    (hg : committed' g = true) (hr : lx.recover = none) (v : Val) (lx' : Lx) (W0 : World)
+    (h : run R n g lx { ctx with sink := false } W = (.ok v lx', W0)) :
+    run R n g lx { ctx with sink := true } W = (.ok v lx', W0) ∧ W0.log = W.log := by
+  have hl : W0.log = W.log := by
+    have := C08_nosink_log_empty R n g lx { ctx with sink := false } W rfl
+    rwa [h] at this
+  rcases C08_lockstep R n g lx ctx W hg hr with h1 | ⟨e, e', rest, he, _⟩
+  · exact ⟨h1.trans h, hl⟩
+  · rw [h] at he; cases he
+
+/-- **C08 (b)** — for `Spec.committed` itself (probes included).  If the parse WITH a sink
+succeeds and reported nothing, the parse without a sink yields the identical value, lexer and
+world. -/
+theorem C08_b (R : RunEnv) (n : Nat) (g : G) (lx : Lx) (ctx : Ctx) (W : World)
+    (hg : Spec.committed g = true) (hr : lx.recover = none) (v : Val) (lx' : Lx) (W1 : World)
+    (h : run R n g lx { ctx with sink := true } W = (.ok v lx', W1)) (hlog : W1.log = W.log) :
+    run R n g lx { ctx with sink := false } W = (.ok v lx', W1) := by
+  rcases run_lockstep true R n g lx { ctx with sink := false } W rfl (by rw [comm_true]; exact hg) hr with h1 | h1
+  · exact h1.symm.trans h
+  · obtain ⟨e', rest, hl, _⟩ := h1
+    have h2 : (run R n g lx { ctx with sink := true } W).2.log = W.log ++ e' :: rest := hl
+    rw [h] at h2
+    have := congrArg List.length (hlog.symm.trans h2)
+    simp at this
+
+/-- **C08 (c).**  `committed' g`, lexer without recover state: if the parse WITHOUT a sink
+fails with `e`, then the parse WITH a sink either fails with the same `e` (then the two runs are
+equal altogether, see `C08_lockstep`), or the first entry it appends to the log has the body of
+`e` — and is exactly `ctx.apply e` when the grammar pushes no context transforms. -/
+theorem C08_c (R : RunEnv) (n : Nat) (g : G) (lx : Lx) (ctx : Ctx) (W : World)
+    (hg : committed' g = true) (hr : lx.recover = none) (e : PErr)
+    (h : (run R n g lx { ctx with sink := false } W).1 = .err e) :
+    (run R n g lx { ctx with sink := true } W).1 = .err e ∨
+    ∃ e' rest, (run R n g lx { ctx with sink := true } W).2.log = W.log ++ e' :: rest ∧ e'.body = e.body ∧
+      (ctxFree g = true → e' = ctx.apply e) := by
+  rcases C08_lockstep R n g lx ctx W hg hr with h1 | ⟨e0, e', rest, he, hl, hb, hp⟩
+  · exact Or.inl (by rw [h1]; exact h)
+  · rw [h] at he
+    cases he
+    exact Or.inr ⟨e', rest, hl, hb, hp⟩
+
+/-! ### `Spec.committed` is too generous for (a) and (c): a live `probe` reports to the sink -/
+
+/-- (a) as first stated, for `Spec.committed` — FALSE (see `C08_a_committed_false`). -/
+def C08_a_committed_statement : Prop :=
+  ∀ (R : RunEnv) (n : Nat) (g : G) (lx : Lx) (ctx : Ctx) (W : World), Spec.committed g = true →
+    lx.recover = none → ∀ (v : Val) (lx' : Lx) (W0 : World),
+    run R n g lx { ctx with sink := false } W = (.ok v lx', W0) →
+    run R n g lx { ctx with sink := true } W = (.ok v lx', W0)
+
+/-- (c) as first stated, for `Spec.committed` — FALSE (see `C08_c_committed_false`). -/
+def C08_c_committed_statement : Prop :=
+  ∀ (R : RunEnv) (n : Nat) (g : G) (lx : Lx) (ctx : Ctx) (W : World), Spec.committed g = true →
+    lx.recover = none → ∀ (e : PErr), (run R n g lx { ctx with sink := false } W).1 = .err e →
+    (run R n g lx { ctx with sink := true } W).1 = .err e ∨
+    ∃ e' rest, (run R n g lx { ctx with sink := true } W).2.log = W.log ++ e' :: rest ∧ e'.body = e.body
+
+/-- a scanner that never produces a token, over the empty text -/
+def cexEnv : RunEnv := ⟨⟨fun s _ _ => (none, s), fun _ _ => true⟩, []⟩
+def cexLx : Lx := Lexer.new 1 ⟨.lf, 4⟩ 0
+
+/-- Counterexample to (a) for `Spec.committed`: `probe 0` succeeds without a sink and reports
+nothing; with a sink it reports the probe. -/
+theorem C08_a_committed_false : ¬ C08_a_committed_statement := by
+  intro h
+  have h0 : run cexEnv 1 (.probe 0) cexLx { (⟨false, [], false⟩ : Ctx) with sink := false } World.init =
+      (.ok .unit cexLx, (run cexEnv 1 (.probe 0) cexLx ⟨false, [], false⟩ World.init).2) := by
+    simp [run]
+  have := h cexEnv 1 (.probe 0) cexLx ⟨false, [], false⟩ World.init rfl rfl _ _ _ h0
+  have := congrArg (fun r => r.2.log.length) this
+  simp [run, sendError, World.init] at this
+
+/-- `probe 0` followed by a recovering `one 0` -/
+def cexG : G := .both (.probe 0) (.recover 1 7 (.one 0) (.before 0))
+
+theorem cex_next : Lexer.next cexEnv.E cexLx = (none, cexLx) := by
+  simp [Lexer.next, cexLx, Lexer.new]
+
+theorem cex_peek (lx : Lx) (h : lx.len ≤ lx.cursor.byte) : Lexer.peek cexEnv.E lx = (none, lx) := by
+  simp [Lexer.peek, h]
+
+@[simp] theorem cexLx_len : cexLx.len = 0 := rfl
+
+theorem cex_run0 : (run cexEnv 5 cexG cexLx ⟨false, [], false⟩ World.init).1 =
+    .err (mkErr (.unexp cexLx.parseSpan cexLx.tokenSpan (.token 0) .eot)) := by
+  simp [run, cexG, recoverDefault, sendError, cex_next]
+
+theorem cex_run1 : (run cexEnv 5 cexG cexLx ⟨true, [], false⟩ World.init).1 = .err (mkErr .recover) ∧
+    (run cexEnv 5 cexG cexLx ⟨true, [], false⟩ World.init).2.log =
+      [⟨[], .probe 0⟩, mkErr (.unexp cexLx.parseSpan cexLx.tokenSpan (.token 0) .eot)] := by
+  simp [run, cexG, recoverDefault, sendError, cex_next, advanceToRecover, recoverLoop, cex_peek, World.init,
+    World.register, Ctx.apply, mkErr, Lexer.setRecoverState]
+
+/-- Counterexample to (c) for `Spec.committed`: on the empty input, without a sink
+`both (probe 0) (recover (one 0))` fails with `unexpected end of text`; with a sink the result is
+`Err(RecoverError)` and the FIRST log entry is the probe, not that error.  (The same happens with
+the harness scanner `lexEnv (ScanCfg.ofId 1)`, state `1`, on the text `b`: checked with `#eval`.) -/
+theorem C08_c_committed_false : ¬ C08_c_committed_statement := by
+  intro h
+  rcases h cexEnv 5 cexG cexLx ⟨false, [], false⟩ World.init rfl rfl _ cex_run0 with h1 | ⟨e', rest, hl, hb⟩
+  · have := cex_run1.1
+    rw [show ({ (⟨false, [], false⟩ : Ctx) with sink := true } : Ctx) = ⟨true, [], false⟩ from rfl] at h1
+    rw [this] at h1
+    simp [mkErr] at h1
+  · rw [show ({ (⟨false, [], false⟩ : Ctx) with sink := true } : Ctx) = ⟨true, [], false⟩ from rfl, cex_run1.2] at hl
+    simp [World.init] at hl
+    rw [← hl.1] at hb
+    simp [mkErr] at hb
+
+/-! ### non-vacuity -/
+
+/-- `committed'` admits grammars that do recover: recovering combinators in sequence, a
+probe below `maybe`, a speculative recovery-free alternative. -/
+example : committed' (.both (.recover 1 7 (.one 0) (.before 4))
+    (.either (.one 1) (.list 1 8 0 none (.maybe (.probe 3)) 4 [7]))) = true := by decide
+
+/-- (a) is not vacuous: a committed grammar with a recovering combinator that succeeds without a sink
+(here: on any lexer, `recover(empty)`), and (c)'s second alternative does occur (`cex_run1`). -/
+example (R : RunEnv) (lx : Lx) (W : World) :
+    run R 3 (.recover 1 7 .empty (.before 4)) lx ⟨false, [], false⟩ W =
+      (.ok .unit lx, W.register 7 (.before 4)) := by
+  simp [run, recoverDefault]
 
 end Tephra.Props
